@@ -100,3 +100,8 @@ for _p in PROPS.values():
         if _m not in _a:
             _a.append(_m)
     _p["analyses"] = _a
+# The contract of `main` assumes that argparse hands out the argv texts unchanged; analyses/cli_wiring.py discharges that
+# assumption on the declarations of build_parser.  It belongs to every property that speaks about the CLI channel.
+for _k in ("C16", "C07", "C12", "C08"):
+    if "analyses.cli_wiring" not in PROPS[_k]["analyses"]:
+        PROPS[_k]["analyses"].append("analyses.cli_wiring")
